@@ -2,7 +2,7 @@
 """Generates /verif/MANIFEST.json from the table below (keeps it valid and consistent)."""
 import json, subprocess, sys
 
-HOOK_COMMITS = ["bcea3fd"]
+HOOK_COMMITS = ["bcea3fd", "7f27ca7"]
 
 # id -> (level category, level text, design ref, level note, technique)
 CHECKS = {
